@@ -465,6 +465,9 @@ func (w *World) checkRead(id int, key string, useReader bool, what string) bool 
 	}
 	cands, merr := w.M.Read(id, key)
 	cls := Class(err)
+	if cls != model.OK {
+		w.Stats["err-result"]++
+	}
 	if merr != model.OK {
 		if cls != merr {
 			w.R.Failf("%s: %s read %q: got %s (%v), want %s", what, actorName(w, id), key, cls, err, merr)
